@@ -154,7 +154,11 @@ macro_rules! parse_alloc {
 }
 
 // ---- whole-file parsers, count fields symbolic (allocation focus) -------------------------------------------
-// @family prop=C02 tier=quick timeout=900 role=manifest-parse-alloc
+// NOT REGISTERED (measured on the patched tree /tmp/wt-c02fix: 900 s timeout each, also with one count field fixed to 0 - CBMC does not
+// propagate the concrete header bytes through Cursor/read_exact, so the tag / entry record readers (name loops, UTF-8 validation,
+// read_to_end) are unrolled on infeasible paths; Kani cannot stub the generic trait method `<T as BinRead>::read_options`).
+// The three sites are demonstrated natively before/after instead: /verif/.work/patches/{install,download,size}_manifest.msg
+// family prop=C02 role=manifest-parse-alloc
 // @bounds whole-file parser on a HEADER-ONLY input (install V1: 10 bytes, download V1: 11 bytes with the version byte fixed to 1, size V2: 15 bytes with the version byte fixed to 2): every other byte symbolic, in particular the 32-bit entry count and the 16-bit tag count
 // @encodes cascette_formats::install::manifest::InstallManifest::parse, cascette_formats::download::manifest::DownloadManifest::parse, cascette_formats::size::manifest::SizeManifest::parse
 // @assumes the two looping record readers (InstallTag::read_options - shared by all three manifests - and InstallFileEntry::read_options) are replaced by "unexpected end of file": exact for a header-only input (no byte is left for any record), and it keeps the model checker out of the record readers (with them the run does not finish in 15 min); std::fmt::format stubbed; allocator spy records the largest single request
